@@ -69,6 +69,7 @@ type fnInfo struct {
 type Interp struct {
 	feedsIdx     map[ssa.Value]bool
 	redirect     map[string]*ssa.Function
+	redirectAny  map[string]*ssa.Function
 	prog         *ssa.Program
 	globals      map[*ssa.Global]*Value
 	fninfo       map[*ssa.Function]*fnInfo
@@ -811,6 +812,12 @@ func (i *Interp) callSSA(caller *frame, pos token.Pos, fn *ssa.Function, args []
 		// environment stubs (C20): calls made by the command's own code to I/O functions go to
 		// harness-defined stubs with the same signature
 		if stub := i.redirect[fn.String()]; stub != nil && i.redirectFrom(caller.fn) {
+			fn = stub
+			fr.fn = stub
+		}
+	}
+	if i.redirectAny != nil && fn.Parent() == nil && fn.Signature.Recv() != nil {
+		if stub := i.redirectAny[fn.String()]; stub != nil {
 			fn = stub
 			fr.fn = stub
 		}
